@@ -176,6 +176,15 @@ def run(P, R):
             'slave-follow|_MasterSlaveState._slave_next', u.loc(),
             '_slave_next of a working state can return %s instead of following the Master state' %
             sorted(str(x) for x in d))
+    # ---------------------------------------------------------------- R5
+    r5 = R.rule('R5', 'who the Master can be (shared with C01)', 'a Master-driven state is entered with a known Master that '
+                'the instance sees RUNNING: the recognised Master is only chosen among RUNNING candidates (declared '
+                'Masters of RUNNING instances first, core identifiers restricted to those candidates, lowest nick), it is '
+                'forgotten when it leaves RUNNING, and the election only happens on a stable context (all RUNNING '
+                'instances report the same set)', 8)
+    from .c01 import rule_master, rule_stability
+    rule_master(P, R, r5)
+    rule_stability(P, R, r5)
     R.assume('Decision sets are computed over the return statements of next() and the helpers it calls through self./'
              'super(); values flowing through instance attributes are not tracked (none do on the analysed tree; an '
              'unknown return expression is an analysis error).')
